@@ -18,7 +18,7 @@ from lib.proggen import ProgGen
 from lib.props.c08 import STRUCT
 
 NEVER = ["re:" + hx(p) for p in ["@@never", "ZZZ\\d+", "\\x00", "QQ(\\d+)Q", "(?:zz)+zz!", "Z*", "(QQ)?", "\\b", "^", "(?:)"]] + ["spnever:0", "spnever:1", "spnever:3", "spnever:40", "spzero"]
-IDENT = ["hooks", "rewr", "hooks,rewr", "hooks2", "hooks2,rewr"]
+IDENT = ["hooks", "rewr", "hooks,rewr", "hooks2", "hooks2,rewr", "gnil", "gnil,hooks2"]
 SCOPES = ["x=5; &a=x+1; a", "x=5; &a=x+d1; a + a", "func f(q){ q + x }; x = 3; f(2) + x", "x=2; &a = x*2; &b = a + x; b + a", "x=1; func g(){ &c = x + 1; c + x }; g()",
           "y = 4; func f(){ func g(){ y + 1 }; g() + y }; f()", "&a = abs(0-3) + 1; a", "x = [1,2]; &a = x[0] + x.len(); a"]
 
